@@ -42,6 +42,8 @@ var litmusTests = []litmusCase{
 	{"close-closed", 1, []string{"P"}, ""},
 	{"global-fresh", 1, []string{"fresh"}, ""},
 	{"race-global", 1, nil, "race"},
+	{"race-atomic-plain", 1, nil, "race"},
+	{"norace-atomic-atomic", 1, nil, "norace"},
 	{"race-plain", 1, nil, "race"},
 	{"race-map", 1, nil, "race"},
 	{"race-map-range", 1, nil, "race"},
